@@ -68,6 +68,10 @@ def apply_parse_monitors(o, M, case, deciding, matcher=None, skip=()):
                 fired = True
             else:
                 M.count("advisory." + mid)
+    if o.status == "ok" and not isinstance(o.ast, dict):
+        # parse "succeeded" without a document: an observed outcome of the code under test, whatever the check is about
+        M.violation("G1", {"what": "Parser.parse returned %r instead of a document" % (o.ast,)}, case, mechanism=mech)
+        return True
     if o.status == "ok" and isinstance(o.source, str) and "G5" not in skip and mech is None:
         res = observe.g5_location_slices(o.ast, o.source, M)
         M.count("G5.evaluated")
